@@ -669,16 +669,32 @@ def langType (env : Env) (asC : Bool) (s : Spec) : Option Str :=
   | some ti => if asC then ti.cType else ti.cxxType
   | none => none
 
+/-- `attrs["name"] or attrs["_name"]` as used by `Declaration.name` for a declaration without
+    declarator: `some (some s)` a text name, `some none` nothing to print (unset or falsy),
+    `none` a truthy non-string (True, a non-zero number) that reaches `"".join` -> TypeError -/
+def attrTruthy : AttrVal → Option (Option Str)
+  | .flag => none
+  | .text parts => let t := (parts.map (·.val)).flatten; if t.isEmpty then some none else some (some t)
+  | .init (.str v) => if v.isEmpty then some none else some (some v)
+  | .init (.int py) => if py = sp "0" then some none else none
+  | .init (.real py) => if py = sp "0.0" ∨ py = sp "-0.0" then some none else none
+
+def attrName (attrs : List (Str × AttrVal)) : Option (Option Str) :=
+  match (match assoc (sp "name") attrs with | some v => attrTruthy v | none => some none) with
+  | some none => (match assoc (sp "_name") attrs with | some v => attrTruthy v | none => some none)
+  | r => r
+
 mutual
 /-- `Declaration.gen_arg_as_lang(decl, lang)` with default keyword arguments;
     `none` = Python `TypeError` (a `None` type string reaches `"".join`) -/
 def genArg (env : Env) (asC : Bool) : Decl → Option Str
-  | .mk s dr params fc arr _ _ =>
-    match langType env asC s with
-    | none => none
-    | some typ =>
+  | .mk s dr params fc arr attrs _ =>
+    match langType env asC s, (match dr with | some d => some (d.gen asC) | none => (attrName attrs).map (fun n => match n with | some x => sp " " ++ x | none => [])) with
+    | none, _ => none
+    | _, none => none
+    | some typ, some dtxt =>
       let head := (if s.const then sp "const " else []) ++ (if s.volatile then sp "volatile " else []) ++ typ
-        ++ (match dr with | some d => d.gen asC | none => [])
+        ++ dtxt
       let ps : Option Str := match params with
         | none => some []
         | some [] => some (sp "(void)" ++ (if fc then sp " const" else []))
